@@ -414,6 +414,11 @@ type Pred struct {
 	Src    string
 }
 
+type CallUpdate struct {
+	Callee string
+	GhostUpdate
+}
+
 type GhostUpdate struct {
 	Name string
 	Expr Expr
@@ -445,6 +450,7 @@ type FuncContract struct {
 	NoFrame  bool // no frame promise: callers havoc everything; no frame obligations
 	Decreases *Clause
 	Lets     []Param // let name = expr (Type holds the expression source)
+	CallUpdates []CallUpdate // call NAME update G = expr
 	Ghosts   []Param // ghost name type
 	Inits    []GhostUpdate
 }
@@ -469,7 +475,7 @@ func NewContractSet() *ContractSet {
 }
 
 var clauseKeywords = map[string]bool{"pred": true, "func": true, "requires": true, "ensures": true, "loop": true,
-	"modifies": true, "ufunc": true, "axiom": true, "lemma": true, "noframe": true, "opaque": true, "reveal": true, "uses": true, "trusted": true, "pure": true, "safe": true, "decreases": true, "let": true, "ghost": true, "init": true, "package": true}
+	"modifies": true, "ufunc": true, "axiom": true, "lemma": true, "noframe": true, "opaque": true, "reveal": true, "uses": true, "trusted": true, "pure": true, "safe": true, "decreases": true, "let": true, "ghost": true, "init": true, "call": true, "package": true}
 
 // ParseContractFile reads the //@ lines of one file.
 func (cs *ContractSet) ParseContractFile(path, pkgPath string) error {
@@ -643,6 +649,23 @@ func (cs *ContractSet) ParseContractFile(path, pkgPath string) error {
 					return fmt.Errorf("%s:%d: ghost NAME TYPE", path, it.n)
 				}
 				cur.Ghosts = append(cur.Ghosts, Param{fields[1], strings.Join(fields[2:], "")})
+			case "call":
+				// call NAME update G = expr
+				k := strings.Index(rest, " update ")
+				if k < 0 {
+					return fmt.Errorf("%s:%d: call NAME update G = expr", path, it.n)
+				}
+				callee := strings.TrimSpace(rest[:k])
+				r2 := strings.TrimSpace(rest[k+len(" update "):])
+				eq := strings.Index(r2, "=")
+				if eq < 0 {
+					return fmt.Errorf("%s:%d: bad call update", path, it.n)
+				}
+				x, err := ParseExpr(r2[eq+1:])
+				if err != nil {
+					return fmt.Errorf("%s:%d: %v", path, it.n, err)
+				}
+				cur.CallUpdates = append(cur.CallUpdates, CallUpdate{callee, GhostUpdate{strings.TrimSpace(r2[:eq]), x, r2}})
 			case "init":
 				eq := strings.Index(rest, "=")
 				if eq < 0 {
